@@ -210,6 +210,10 @@ type marshalledService struct {
 	PauseController   *PauseController   `json:"pause_controller"`
 	RolloutController *RolloutController `json:"rollout_controller"`
 
+	// The rollout targets keep the options they were deployed with when the
+	// service is later redeployed with different target options.
+	RolloutTargetOptions *TargetOptions `json:"rollout_target_options,omitempty"`
+
 	LegacyActiveTarget  string   `json:"active_target,omitempty"`
 	LegacyRolloutTarget string   `json:"rollout_target,omitempty"`
 	LegacyHosts         []string `json:"hosts,omitempty"`
@@ -218,18 +222,24 @@ type marshalledService struct {
 
 func (s *Service) MarshalJSON() ([]byte, error) {
 	var rolloutTargets []string
+	var rolloutTargetOptions *TargetOptions
 	if s.rollout != nil {
-		rolloutTargets = s.rollout.Targets().Names()
+		targets := s.rollout.Targets()
+		rolloutTargets = targets.Names()
+		if len(targets) > 0 {
+			rolloutTargetOptions = &targets[0].options
+		}
 	}
 
 	return json.Marshal(marshalledService{
-		Name:              s.name,
-		ActiveTargets:     s.active.Targets().Names(),
-		RolloutTargets:    rolloutTargets,
-		Options:           s.options,
-		TargetOptions:     s.targetOptions,
-		PauseController:   s.pauseController,
-		RolloutController: s.rolloutController,
+		Name:                 s.name,
+		ActiveTargets:        s.active.Targets().Names(),
+		RolloutTargets:       rolloutTargets,
+		Options:              s.options,
+		TargetOptions:        s.targetOptions,
+		PauseController:      s.pauseController,
+		RolloutController:    s.rolloutController,
+		RolloutTargetOptions: rolloutTargetOptions,
 	})
 }
 
@@ -270,7 +280,12 @@ func (s *Service) UnmarshalJSON(data []byte) error {
 	// A service has a rollout load balancer only once rollout targets have
 	// been deployed; a rollout split cannot be set before that.
 	if len(ms.RolloutTargets) > 0 {
-		rolloutTargets, err := NewTargetList(ms.RolloutTargets, ms.TargetOptions)
+		rolloutTargetOptions := ms.TargetOptions
+		if ms.RolloutTargetOptions != nil {
+			rolloutTargetOptions = *ms.RolloutTargetOptions
+		}
+
+		rolloutTargets, err := NewTargetList(ms.RolloutTargets, rolloutTargetOptions)
 		if err != nil {
 			return err
 		}
